@@ -21,6 +21,8 @@ import registry
 def harness_obligations(hspec):
     """Named obligations of one harness = the quoted names `Cnn.xxx` inside the harness function's
     body in its source file, plus the `also` list (assertions living in woven probes/helpers)."""
+    if "obligations" in hspec:
+        return list(hspec["obligations"])
     src = open(os.path.join(vlib.VERIF, hspec["file"])).read()
     m = re.search(r"fn\s+%s\s*\(" % re.escape(hspec["name"]), src)
     if not m:
@@ -56,6 +58,8 @@ def weave_units(ws, unit_names):
             continue
         done.add(u)
         unit = registry.UNITS[u]
+        if unit.get("gen"):
+            unit["gen"](ws)
         for dest, src in unit.get("files", []):
             ws.add_file(dest, os.path.join(vlib.VERIF, src))
         for e in unit.get("edits", []):
@@ -89,7 +93,7 @@ def run_kani_group(prop, grp, tier, obligations, undecided, failures, checker_cm
         res, meta, raw = vlib.kani_run(
             ws, crate, [h["name"] for h in hs], features=features, jobs=grp.get("jobs", 8),
             timeout=timeout, harness_timeout=max(h.get("timeout", 300) for h in hs),
-            solver=grp.get("solver"))
+            solver=grp.get("solver"), modpath=grp.get("modpath"))
         checker_cmds.append(meta["cmd"])
         ev_extra.setdefault("kani_runs", []).append(meta)
         if not res:
@@ -160,7 +164,8 @@ def run_kani_group(prop, grp, tier, obligations, undecided, failures, checker_cm
             if not f["new"]:
                 continue
             pb = vlib.kani_playback(ws, crate, f["harness"]["name"], features=features,
-                                    solver=grp.get("solver"))
+                                    solver=grp.get("solver"), modpath=grp.get("modpath"),
+                                    run_native=f["harness"].get("replayable", True))
             f["playback"] = pb
     finally:
         ws.cleanup()
